@@ -220,10 +220,15 @@ def op_write_robots(c):
     with tempfile.TemporaryDirectory(dir=c["scratch"]) as d:
         fn = os.path.join(d, "g.py")
         try:
+            # the same board OBJECTS are written twice (one hand board for several settings is ordinary use);
+            # what is checked is the SECOND file, and that it equals the first
+            before = copy.deepcopy(a)
+            rg.write_robots(os.path.join(d, "first.py"), *a)
             rg.write_robots(fn, *a)
             text = open(fn).read()
             games = cr.read_dict_from_file(fn)
-            return {"ok": enc(games), "text": text}
+            return {"ok": enc(games), "text": text, "first_same": open(os.path.join(d, "first.py")).read() == text,
+                    "args_intact": a == before}
         except Exception as e:   # noqa: BLE001
             return exc_info(e)
 
